@@ -46,6 +46,7 @@ import (
 	authtypes "github.com/cosmos/cosmos-sdk/x/auth/types"
 	stakingtypes "github.com/cosmos/cosmos-sdk/x/staking/types"
 	gethCommon "github.com/ethereum/go-ethereum/common"
+	abci "github.com/tendermint/tendermint/abci/types"
 	tmproto "github.com/tendermint/tendermint/proto/tendermint/types"
 )
 
@@ -67,6 +68,8 @@ type bworld struct {
 	credits map[string][]string // prophecy id -> observed credits "recv|denom|amt"
 	credAll []string            // all observed credits "denom|amt"
 	minted  []string            // denominations observed entering the supply through the credit of a lock claim
+	finalSeen map[string]string // prophecy id -> its dump when it was first observed finalised (SUCCESS / FAILED)
+	finalIds  []string
 	locks   []string            // successful locks "denom|amt"
 	burns   []string            // successful burns "denom|amt"
 }
@@ -106,6 +109,8 @@ func (w *bworld) reset() {
 	w.credits = map[string][]string{}
 	w.credAll = nil
 	w.minted = nil
+	w.finalSeen = map[string]string{}
+	w.finalIds = nil
 	w.locks = nil
 	w.burns = nil
 }
@@ -613,13 +618,30 @@ func (x *bexec) exec(line string) {
 		}
 		x.emit(line, ans, "txm."+cls, true)
 	case "blk":
-		// next block: same stores, height + 1
-		w.ctx = w.ctx.WithBlockHeight(w.ctx.BlockHeight() + 1)
-		x.emit(line, "ok", "blk", false)
+		// n blocks pass: the real EndBlock hooks of the oracle and ethbridge modules at the current height, height + n,
+		// their BeginBlock hooks; a panic of a hook is an observation
+		n := int64(1)
+		if len(t) > 1 {
+			n = int64(atoi(t[1]))
+		}
+		ans := protectStr(func() string {
+			cdc := w.app.AppCodec()
+			om := oracle.NewAppModule(w.app.OracleKeeper)
+			em := ethbridge.NewAppModule(w.app.OracleKeeper, w.app.BankKeeper, w.app.AccountKeeper, w.app.EthbridgeKeeper, &cdc)
+			h := w.ctx.BlockHeight()
+			om.EndBlock(w.ctx, abci.RequestEndBlock{Height: h})
+			em.EndBlock(w.ctx, abci.RequestEndBlock{Height: h})
+			w.ctx = w.ctx.WithBlockHeight(h + n)
+			om.BeginBlock(w.ctx, abci.RequestBeginBlock{})
+			em.BeginBlock(w.ctx, abci.RequestBeginBlock{})
+			return "ok"
+		}, "panic")
+		x.emit(line, ans, "blk."+ans, n > 1)
 	default:
 		panic("unknown line " + line)
 	}
 	x.obs()
+	x.chkFinalHistory(t)
 	// after every line that can touch the whitelist (or the block height): the keeper's view against the store
 	if t[0] == "wlset" || t[0] == "txm" || t[0] == "restart" || t[0] == "blk" || (t[0] == "tx" && t[1] == "wl") {
 		x.chkWlView()
@@ -628,6 +650,35 @@ func (x *bexec) exec(line string) {
 
 func (x *bexec) obs() {
 	x.emit("obs", x.w.dumpState(), "obs", false)
+}
+
+// finality over the history: a prophecy once observed finalised is remembered as it was then; after every claim about
+// it, and after every block step and restart for all remembered ones, what the keeper returns now is put next to it
+func (x *bexec) chkFinalHistory(t []string) {
+	w := x.w
+	var ids []string
+	switch {
+	case t[0] == "tx" && t[1] == "claim":
+		id := prophecyID(ethClaimOf(w, t[2:]))
+		if p, found := w.prophecy(id); found && p.Status.Text != oracletypes.StatusText_STATUS_TEXT_PENDING {
+			if _, seen := w.finalSeen[id]; !seen {
+				w.finalSeen[id] = w.dumpProphecy(p)
+				w.finalIds = append(w.finalIds, id)
+			}
+		}
+		if _, seen := w.finalSeen[id]; seen {
+			ids = []string{id}
+		}
+	case t[0] == "blk" || t[0] == "restart":
+		ids = w.finalIds
+	}
+	for _, id := range ids {
+		now := "-"
+		if p, found := w.prophecy(id); found {
+			now = w.dumpProphecy(p)
+		}
+		x.emit(fmt.Sprintf("chk finhist tag=oracle.finality.over-history first=%s now=%s", w.finalSeen[id], now), "true", "chk.finhist", true)
+	}
 }
 
 // the whitelist the keeper serves against the whitelist the multistore holds (read raw, decoded with the codec)
